@@ -28,9 +28,13 @@ FIX_F5 = True   # AddRef(nil) on a resolved container calls the nil callback
 if "VERIF_RC_FIX" in os.environ:
     FIX_F4, FIX_F5 = "4" in os.environ["VERIF_RC_FIX"], "5" in os.environ["VERIF_RC_FIX"]
 
-SCEN = {"quick": ["rc_q1", "rc_q2", "rc_q3", "rc_q4", "rc_q5"],
-        "thorough": ["rc_q1", "rc_q2", "rc_q3", "rc_q4", "rc_q5", "rc_t1", "rc_t2", "rc_t3", "rc_t4", "rc_t5", "rc_t6"]}
-BIG = ["rc_b1", "rc_b2"]   # thorough: model checked only (graph too large to dump)
+# rc_q6 / rc_q7 (and rc_t7 / rc_t8): `samecall` -- resolver call 2 returns a value EQUAL to the previous generation's
+# (Access under invalidation + equal replacement; ResolveWithReleased and a logging reference). Small alphabets so
+# that the schedules cover every edge of the graph.
+SCEN = {"quick": ["rc_q1", "rc_q2", "rc_q3", "rc_q4", "rc_q5", "rc_q6", "rc_q7"],
+        "thorough": ["rc_q1", "rc_q2", "rc_q3", "rc_q4", "rc_q5", "rc_q6", "rc_q7", "rc_t1", "rc_t2", "rc_t3", "rc_t4", "rc_t5", "rc_t6",
+                     "rc_t7", "rc_t8"]}
+BIG = ["rc_b1", "rc_b2", "rc_b3"]   # thorough: model checked only (graph too large to dump); rc_b3: samecall = 3, valnr
 
 
 def scen_path(n):
@@ -50,6 +54,7 @@ def mk_factory(sc, fix4=None, fix5=None):
     def mk(d, kind):
         consts = ["Prog <- ScProg", "Keep = %s" % ("TRUE" if sc["keep"] else "FALSE"), "Outs <- ScOuts", "RelOut = %d" % sc.get("relout", 1),
                   "CbOuts <- ScCbOuts", "MaxRes = %d" % sc.get("maxres", 3), "MaxG = %d" % sc.get("maxg", 4),
+                  "SameCall = %d" % sc.get("samecall", 0),
                   "FixF4 = %s" % ("TRUE" if fix4 else "FALSE"), "FixF5 = %s" % ("TRUE" if fix5 else "FALSE")]
         cfg = ["INIT Init", "NEXT Next", "CHECK_DEADLOCK FALSE", "CONSTRAINT Bound", "CONSTANTS"] + [" " + c for c in consts]
         if kind == "mc":
@@ -93,7 +98,10 @@ FAM = dict(driver="refcount", specdirs=["refcount", "lib"], monitor="RefCountPTr
            n_random={"quick": 1200, "thorough": 20000},
            modes={"thorough": [("r%d" % i, "v%d" % i, 20000) for i in range(1, 4)]},
            x_specs=["refcount/RefCount.tla"], p_monitor="refcount/RefCountP.tla",
-           assumptions=["RefCountP encodes the statements with the readings listed in its header comment "
+           assumptions=["values of different resolver calls may compare equal (scenario field samecall; zerocall: the zero value): the harness logs "
+                        "observed values raw, RefCountP reads an observed value as the SET of resolver calls carrying it -- a permission is "
+                        "granted if some candidate permits it, an obligation asserted only if every candidate implies it (RefCountP header)",
+                        "RefCountP encodes the statements with the readings listed in its header comment "
                         "(invalidated = released() called or context changed; 'given' = callback received the value; "
                         "'shortly after' = by the next quiescent point; any resolver call between enter and leave counts as in progress)",
                         "caller contexts are cancelled only while the call is blocked inside the library or inside the Access callback "
